@@ -27,6 +27,9 @@ def run_scenarios(chk, suite, scs, props, nontrivial=None, dist=None):
             if p in props:
                 chk.violation(clause, {'scenario': sc}, detail, f'{p}:{clause}', input_class=clause)
         oracles.check_scenario(sc, o, add)
+        if o.get('stuck') and 'C03' not in props and not sc.get('expect_stuck_ok'):
+            # whatever the property says about what a call returns, it does not hold for a call that never returns
+            chk.violation('call_never_returns', {'scenario': sc}, {'stuck': o['stuck']}, 'the call returns (and then satisfies the property)', input_class='call_never_returns')
     return obs
 
 
